@@ -1,5 +1,6 @@
 import Pearl.Proofs.FilterLemmas
 import Pearl.Proofs.ContainerLemmas
+import Pearl.Proofs.ContainerStack
 /-
 C10 — "Filters never give a false negative, in memory, on file, merged or off-loaded".
 
@@ -370,6 +371,173 @@ example :
     storagePrunes toy c 0 40 = true ∧ storagePrunes toy c 2 40 = true ∧ storagePrunes toy c 3 40 = false := by
   decide
 
+/-! ## the iterator as written: the stack machine of `PossibleRevIter::next`
+
+`Container.iterNext` is the literal transcription of `PossibleRevIter::next` (explicit stack of `(index, entry)`
+pairs); `Container.iterPossibleStack` runs it to exhaustion.  The theorems above are stated on the recursive
+reading `Container.iterPossible`; under the container invariant the two coincide, fuels included, so all of them
+hold of the code as written. -/
+
+section stack
+variable {F C : Type} {ops : FilterOps F} {ok : F → Prop}
+
+/-- for every container satisfying the invariant (hence every container built by `new` / `push` / `pop` /
+    `remove` / `offload_buffer`, see `node_filter_sup_*`), for both directions and every key: the stack machine
+    yields exactly what the recursive reading yields.  The fuels are part of the statement: `4 * (inner.len() + 2)`
+    loop iterations per `next` (a whole traversal needs at most `2·groups + 2·leaves + 2 ≤ 4·inner.len() + 2`),
+    `children.len() + 1` calls of `next`, depth `inner.len() + 2` for the recursion. -/
+theorem iterPossibleStack_eq (c : Container F C) (g : List (Option F)) (hinv : Container.Inv ops ok c g)
+    (rev : Bool) (k : Key) :
+    Container.iterPossibleStack ops c rev k = Container.iterPossible ops c rev k :=
+  Container.iterPossibleStack_eq_of_inv c g hinv rev k
+
+/-- the shape-independent core: on ANY arena (any depth) on which the recursive reading unfolds with fuel `D` at
+    every node and `cost` bounds the loop iterations below an entry (`Container.WalkOK`), a single `next()` with
+    fuel above the cost of the stack returns `None` only when nothing is left, and otherwise the head of what
+    is left, with a stack denoting the tail (never costlier) -/
+theorem next_spec (c : Container F C) (rev : Bool) (k : Key) (D : Nat) (cost : Nat → Nat)
+    (hw : Container.WalkOK ops c rev k D cost) (fuel : Nat) (st : List (Nat × Nat)) (hst : Container.StackOK c st)
+    (hfuel : Container.stackCost c rev cost st < fuel) :
+    (Container.iterNext ops c rev k fuel st = none → Container.stackOut ops c rev k D st = []) ∧
+    (∀ j st', Container.iterNext ops c rev k fuel st = some (j, st') →
+      Container.stackOut ops c rev k D st = j :: Container.stackOut ops c rev k D st' ∧ Container.StackOK c st' ∧
+        Container.stackCost c rev cost st' ≤ Container.stackCost c rev cost st) :=
+  Container.iterNext_spec hw fuel st hst hfuel
+
+/-- `root_leaves` for the stack machine -/
+theorem root_leaves_stack (c : Container F C) (g : List (Option F)) (hinv : Container.Inv ops ok c g) (k : Key) :
+    (Container.iterPossibleStack ops c false k).Sublist (List.range c.children.length) := by
+  rw [iterPossibleStack_eq c g hinv]; exact root_leaves c g hinv k
+
+/-- `possible_rev_complete` for the stack machine: `iter_possible_childs_rev(k)` as written yields, in reverse slot
+    order, present children only, and among them every child whose push-time filter covers `k` -/
+theorem possible_rev_complete_stack (c : Container F C) (g : List (Option F)) (k : Key)
+    (hinv : Container.Inv ops ok c g) :
+    (Container.iterPossibleStack ops c true k).Sublist (List.range c.children.length).reverse ∧
+    (Container.iterPossibleStack ops c true k) = (Container.iterPossibleStack ops c false k).reverse ∧
+    (∀ j ∈ Container.iterPossibleStack ops c true k, (c.getChild j).isSome) ∧
+    (∀ j lf, c.getChild j = some lf → ops.coversOpt (g.getD j none) k →
+      j ∈ Container.iterPossibleStack ops c true k) := by
+  rw [iterPossibleStack_eq c g hinv true k, iterPossibleStack_eq c g hinv false k]
+  exact possible_rev_complete c g k hinv
+
+/-- `extend` / `from_vec` keeps the invariant -/
+theorem node_filter_sup_extend (laws : FilterLaws ops ok) (cops : ChildOps F C) (xs : List C) :
+    ∀ (c : Container F C) (g : List (Option F)), Container.Inv ops ok c g →
+      (∀ x ∈ xs, okOpt ok (cops.filterOf x)) →
+      Container.Inv ops ok (Container.extend ops cops c xs) (g ++ xs.map cops.filterOf) := by
+  induction xs with
+  | nil => intro c g h _; simpa [Container.extend] using h
+  | cons x xs ih =>
+    intro c g h hx
+    have := ih _ _ (node_filter_sup_push laws cops c g x h (hx x (List.mem_cons_self ..)))
+      (fun y hy => hx y (List.mem_cons_of_mem _ hy))
+    simpa [Container.extend] using this
+
+end stack
+
+/-- `check_filter_no_fn` for the code as written: `storagePrunesStack` is `storagePrunes` with
+    `iter_possible_childs_rev` read through the stack machine -/
+theorem check_filter_no_fn_stack (h : Nat → Key → Nat) (keyLen : Nat) (c : Container Combined FBlob)
+    (g : List (Option Combined)) (keysAtPush : Nat → List Key)
+    (hinv : Container.Inv (combinedOps h) Combined.WF c g)
+    (hpush : ∀ j k, k ∈ keysAtPush j → (combinedOps h).coversOpt (g.getD j none) k)
+    (delete_adds_no_new_key : ∀ j lf, c.getChild j = some lf → ∀ k ∈ lf.data.keys, k ∈ keysAtPush j)
+    (hblob : ∀ j lf, c.getChild j = some lf → lf.data.Inv h keyLen)
+    (j : Nat) (lf : FLeaf FBlob) (hj : c.getChild j = some lf) (k : Key) :
+    storagePrunesStack h c j k = true → k ∉ lf.data.keys := by
+  rw [storagePrunesStack_eq h c g hinv]
+  exact check_filter_no_fn h keyLen c g keysAtPush hinv hpush delete_adds_no_new_key hblob j lf hj k
+
+/-- `container_check_filter_no_fn` for the code as written: `check_filter` collects the stack machine,
+    `check_filter_fast` is `iter_possible_childs(item).next().is_some()` (one `next` on the initial stack) -/
+theorem container_check_filter_no_fn_stack (h : Nat → Key → Nat) (keyLen : Nat) (c : Container Combined FBlob)
+    (g : List (Option Combined)) (keysAtPush : Nat → List Key)
+    (hinv : Container.Inv (combinedOps h) Combined.WF c g)
+    (hpush : ∀ j k, k ∈ keysAtPush j → (combinedOps h).coversOpt (g.getD j none) k)
+    (delete_adds_no_new_key : ∀ j lf, c.getChild j = some lf → ∀ k ∈ lf.data.keys, k ∈ keysAtPush j)
+    (hblob : ∀ j lf, c.getChild j = some lf → lf.data.Inv h keyLen)
+    (j : Nat) (lf : FLeaf FBlob) (hj : c.getChild j = some lf) (k : Key) (hk : k ∈ lf.data.keys) :
+    Container.checkFilterStack (combinedOps h) (blobOps h) c k ≠ .notContains ∧
+    Container.checkFilterFastStack (combinedOps h) c k ≠ .notContains := by
+  rw [Container.checkFilterStack_eq (blobOps h) c g hinv, Container.checkFilterFastStack_eq c g hinv]
+  exact container_check_filter_no_fn h keyLen c g keysAtPush hinv hpush delete_adds_no_new_key hblob j lf hj k hk
+
+/-! ### non-vacuity of the stack-machine theorems -/
+
+/-- the example container: `group_size = 2`, five blobs (so: root → three groups → leaves), slot 3 removed -/
+def toyStackContainer : Container Combined FBlob :=
+  ((Container.extend (combinedOps toy) (blobOps toy) (Container.new 2 1 : Container Combined FBlob)
+    [toyBlob [1], toyBlob [2], toyBlob [30], toyBlob [40], toyBlob [40, 5]]).remove 3).1
+
+/-- it satisfies the invariant (it is reachable) -/
+theorem toyStackContainer_inv : ∃ gl, Container.Inv (combinedOps toy) Combined.WF toyStackContainer gl := by
+  refine ⟨_, (node_filter_sup_pop _ _ 3 (node_filter_sup_extend (combined_laws toy) (blobOps toy)
+    [toyBlob [1], toyBlob [2], toyBlob [30], toyBlob [40], toyBlob [40, 5]] (Container.new 2 1) []
+    (node_filter_sup_new 2 1 (by decide)) ?_)).2⟩
+  intro x hx f hf
+  cases hf
+  simp only [List.mem_cons, List.not_mem_nil, or_false] at hx
+  rcases hx with rfl | rfl | rfl | rfl | rfl <;> exact FBlob.filter_WF (toyBlob_inv _)
+
+-- two levels (the root has three group nodes, five leaves below), slot 3 is empty, and the machine, run on
+-- key 40, skips group 0 (filter), skips the removed leaf 3, and yields 4 and 2 (reverse) / 2 and 4 (forward)
+example :
+    ((toyStackContainer.getNode toyStackContainer.root).map (·.children)) = some [0, 4, 7] ∧
+    toyStackContainer.inner.length = 9 ∧
+    Container.leavesBelow toyStackContainer 11 toyStackContainer.root = [0, 1, 2, 3, 4] ∧
+    (toyStackContainer.getChild 3).isNone = true ∧
+    Container.iterPossibleStack (combinedOps toy) toyStackContainer true 40 = [4, 2] ∧
+    Container.iterPossibleStack (combinedOps toy) toyStackContainer false 40 = [2, 4] ∧
+    Container.iterPossibleStack (combinedOps toy) toyStackContainer true 2 = [1, 0] ∧
+    storagePrunesStack toy toyStackContainer 0 40 = true ∧ storagePrunesStack toy toyStackContainer 4 40 = false ∧
+    Container.checkFilterFastStack (combinedOps toy) toyStackContainer 40 = .needAdditionalCheck ∧
+    Container.checkFilterFastStack (combinedOps toy) toyStackContainer 77 = .notContains := by
+  decide
+
+-- `iterPossibleStack_eq`, `possible_rev_complete_stack` instantiated on it
+example (rev : Bool) (k : Key) :
+    Container.iterPossibleStack (combinedOps toy) toyStackContainer rev k =
+      Container.iterPossible (combinedOps toy) toyStackContainer rev k := by
+  obtain ⟨gl, h⟩ := toyStackContainer_inv
+  exact iterPossibleStack_eq _ gl h rev k
+
+example (k : Key) : ∀ j ∈ Container.iterPossibleStack (combinedOps toy) toyStackContainer true k, j ≠ 3 := by
+  obtain ⟨gl, h⟩ := toyStackContainer_inv
+  intro j hj hj3
+  subst hj3
+  have := (possible_rev_complete_stack _ gl k h).2.2.1 3 hj
+  revert this
+  decide
+
+-- the hypothesis `WalkOK` of `next_spec` is satisfiable: it follows from the invariant
+example (rev : Bool) (k : Key) :
+    Container.WalkOK (combinedOps toy) toyStackContainer rev k (toyStackContainer.inner.length + 2)
+      (Container.costOf toyStackContainer) := by
+  obtain ⟨gl, h⟩ := toyStackContainer_inv
+  exact h.walkOK rev k
+
+-- the `next` fuel is not tight but of the right order: a whole traversal of the example costs 17 loop
+-- iterations (bound `4 * (9 + 2) = 44`); the first `next` takes 3 of them (push group 0, push its first leaf,
+-- pop the leaf), so with fuel 2 it runs out
+example :
+    Container.costOf toyStackContainer toyStackContainer.root = 17 ∧
+    Container.iterNext (combinedOps toy) toyStackContainer false 2 2 [(0, toyStackContainer.root)] = none ∧
+    Container.iterNext (combinedOps toy) toyStackContainer false 2 3 [(0, toyStackContainer.root)] =
+      some (0, [(1, 0), (1, 3)]) := by
+  decide
+
+-- the invariant is needed: on an arena that is not a tree (the same leaf listed three times below the root, which
+-- no sequence of operations produces) the recursive reading yields the child three times while the stack
+-- machine, limited to `children.len() + 1` items, stops after two
+example :
+    let c : Container Combined FBlob :=
+      { inner := [some (.node { children := [1, 1, 1] }), some (.leaf 0 0)],
+        children := [some { parent := 0, data := toyBlob [1] }], root := 0, groupSize := 4, level := 1 }
+    Container.iterPossible (combinedOps toy) c false 1 = [0, 0, 0] ∧
+    Container.iterPossibleStack (combinedOps toy) c false 1 = [0, 0] := by
+  decide
+
 end Pearl.C10
 
 open Pearl.C10 in
@@ -404,3 +572,24 @@ open Pearl.C10 in
 #print axioms Pearl.C10.blob_check_filter_no_fn
 #print axioms Pearl.C10.check_filter_no_fn
 #print axioms Pearl.C10.container_check_filter_no_fn
+#print axioms Pearl.C10.iterPossibleStack_eq
+#print axioms Pearl.C10.next_spec
+#print axioms Pearl.C10.root_leaves_stack
+#print axioms Pearl.C10.possible_rev_complete_stack
+#print axioms Pearl.C10.node_filter_sup_extend
+#print axioms Pearl.C10.check_filter_no_fn_stack
+#print axioms Pearl.C10.container_check_filter_no_fn_stack
+#print axioms Pearl.C10.toyStackContainer_inv
+
+/-
+NOT YET PROVED (none of the requested statements is missing)
+* `iterPossibleStack_eq` is proved for containers satisfying `Container.Inv` (arena of depth ≤ 3, as built by
+  `new`/`push`/`pop`/`remove`/`offload_buffer`).  The shape-independent core (`next_spec`,
+  `Container.iterStackCollect_eq`, `Container.iterPossibleStack_eq_walk`) covers any arena satisfying
+  `Container.WalkOK`; `WalkOK` itself is derived only from `Container.Inv`, not from a general "the arena is a
+  tree of depth < D" predicate.
+* `PossibleRevIter` is not a fused iterator: if the popped top entry were a leaf whose slot is empty, `next`
+  returns `None` with the rest of the stack still in place.  `iterNext` returns `none` there and the model says
+  nothing about later calls; the case is unreachable (`Container.StackOK`: leaves are pushed only when their slot
+  is occupied and the container is borrowed for the lifetime of the iterator).
+-/
